@@ -36,8 +36,18 @@ func H_C18() {
 		copts = &iface.CreateEntryOptions{PreSigned: true}
 		vx.Sig("opts=PreSigned")
 	}
-	e, err := entry.CreateEntryWithIO(ctx, api, ids[0], &entry.Entry{Payload: vx.Bytes("payload", vx.Param("L", 1)), LogID: "X", Next: next, Refs: refs,
-		Clock: entry.NewLamportClock(ids[0].PublicKey, 1+vx.Choice("time", 2))}, copts, ioW)
+	payload := vx.Bytes("payload", vx.Param("L", 1))
+	tm := 1 + vx.Choice("time", 2)
+	if vx.Choice("sibling", 2) == 1 {
+		// the same codec instance first writes an entry that differs from e in its reference list only (two
+		// replicas of one log state appending the same payload with different pointer counts)
+		sib, err := entry.CreateEntryWithIO(ctx, api, ids[0], &entry.Entry{Payload: append([]byte{}, payload...), LogID: "X", Next: next, Refs: cids(24, 1+vx.Choice("nRefsSibling", 2)),
+			Clock: entry.NewLamportClock(ids[0].PublicKey, tm)}, copts, ioW)
+		vx.Assert("C18", err == nil && sib != nil, "creating an entry with a link key succeeds")
+		vx.Cover("sibling-written")
+	}
+	e, err := entry.CreateEntryWithIO(ctx, api, ids[0], &entry.Entry{Payload: payload, LogID: "X", Next: next, Refs: refs,
+		Clock: entry.NewLamportClock(ids[0].PublicKey, tm)}, copts, ioW)
 	vx.Assert("C18", err == nil && e != nil, "creating an entry with a link key succeeds")
 	if err != nil {
 		return
